@@ -7,10 +7,11 @@ LEVEL = "exploration"
 RULE = (
     "exhaustive: every operation sequence of length exactly N (quick N=5, thorough N=7; all shorter ones are "
     "their prefixes and are judged step by step) over the 11-op alphabet {register(event e1|e2, priority 0|5, "
-    "stops no|yes), dispatch(e1|e2|e3)}, each run twice from an empty dispatcher: once with all queries evaluated "
-    "after every step (which populates the sorted cache) and once without any query; random: Hypothesis op lists "
+    "stops no|yes), dispatch(e1|e2|e3)}, each run three times from an empty dispatcher: with all queries evaluated "
+    "after every step (which populates the sorted cache), without any query, and with the all-events get_listeners() "
+    "evaluated first after every step; random: Hypothesis op lists "
     "up to 40 ops with 3 events, priorities {-3,0,5}, re-registration of an existing callable, listeners that "
-    "register a further listener while being called, and the queries as operations. Non-trivial: a dispatch "
+    "register a further listener while being called, and every single query form (all events, one event, has) as its own operation. Non-trivial: a dispatch "
     "with >= 2 listeners of equal priority on that event, or a registration after a dispatch of the same event "
     "followed by another dispatch of it, or a stopper that is not last in order. Enumerated sequences are distinct "
     "by construction; random ones are deduplicated by hash."
@@ -131,6 +132,27 @@ class Harness(object):
     def regs_event(self, lid):
         return set(e for (e, _, l) in self.regs if l == lid)
 
+    def query_all(self, fail):
+        by_event = {}
+        for e, p, lid in self.regs:
+            by_event.setdefault(e, []).append((p, lid))
+        allmap = self.d.get_listeners()
+        got = dict((k, [getattr(f, "lid", None) for f in v]) for k, v in allmap.items() if v)
+        exp = dict((e, self.expected_order(e)) for e in by_event)
+        if got != exp:
+            fail("C12.queries", exp, got, sig="get_listeners-all")
+
+    def query_event(self, e, fail):
+        got = [getattr(f, "lid", None) for f in self.d.get_listeners(e)]
+        if got != self.expected_order(e):
+            fail("C12.queries", self.expected_order(e), got, sig="get_listeners")
+
+    def query_has(self, e, fail):
+        exp = any(r[0] == e for r in self.regs) if e is not None else bool(self.regs)
+        got = self.d.has_listeners(e) if e is not None else self.d.has_listeners()
+        if bool(got) != exp:
+            fail("C12.queries", exp, got, sig="has_listeners")
+
     def queries(self, fail):
         d = self.d
         by_event = {}
@@ -161,7 +183,7 @@ class Harness(object):
 
 def run_ops(ctx, part, ops, with_queries, by_construction=False, count=True):
     h = Harness()
-    case = {"ops": [list(o) for o in ops], "queries": bool(with_queries)}
+    case = {"ops": [list(o) for o in ops], "queries": with_queries if isinstance(with_queries, str) else bool(with_queries)}
 
     def fail(clause, expected, observed, sig=None, exc=None):
         ctx.fail(part, clause, case, expected, observed, sig=sig, exc=exc)
@@ -178,7 +200,17 @@ def run_ops(ctx, part, ops, with_queries, by_construction=False, count=True):
             h.dispatch(op[1], fail, pass_event=(len(op) < 3 or op[2]))
         elif k == "q":
             h.queries(fail)
-        if with_queries:
+        elif k == "qa":
+            h.query_all(fail)
+        elif k == "qe":
+            h.query_event(op[1], fail)
+        elif k == "qh":
+            h.query_has(op[1], fail)
+        if with_queries == "all-first":
+            # the all-events form of get_listeners() BEFORE any per-event lookup
+            h.query_all(fail)
+            h.queries(fail)
+        elif with_queries:
             h.queries(fail)
     if count:
         ctx.case(part, case, h.nt, distinct_by_construction=by_construction)
@@ -202,6 +234,7 @@ def shard_exhaustive(ctx, arg):
         ops = prefix + rest
         run_ops(ctx, "exhaustive", ops, True, by_construction=True)
         run_ops(ctx, "exhaustive", ops, False, by_construction=True)
+        run_ops(ctx, "exhaustive", ops, "all-first", by_construction=True)
 
 
 def op_st():
@@ -216,6 +249,9 @@ def op_st():
         st.tuples(st.just("d"), ev, st.booleans()),
         st.tuples(st.just("d"), ev, st.booleans()),
         st.tuples(st.just("q")),
+        st.tuples(st.just("qa")),
+        st.tuples(st.just("qe"), ev),
+        st.tuples(st.just("qh"), st.one_of(st.none(), ev)),
     )
 
 
